@@ -182,7 +182,7 @@ class VFS:
         return seen
 
 
-def make_path_class(vfs: VFS):
+def make_path_class(vfs: VFS, opener=None):
     class P(PurePosixPath):
         def exists(self):
             return vfs.exists(str(self))
@@ -221,8 +221,18 @@ def make_path_class(vfs: VFS):
         def expanduser(self):
             return self
 
-        def read_text(self, *a, **k):
-            return vfs.read(str(self))
+        def read_text(self, encoding=None, errors=None):
+            if opener is None:
+                return vfs.read(str(self))
+            return opener(str(self), "r", encoding=encoding, errors=errors).__dict__["_native"]["read"]()
+
+        def read_bytes(self):
+            return vfs.read(str(self)).encode("utf-8")
+
+        def open(self, mode="r", buffering=-1, encoding=None, errors=None, newline=None):
+            if opener is None:
+                raise Unsupported("Path.open")
+            return opener(str(self), mode, encoding=encoding, errors=errors, newline=newline)
 
         @classmethod
         def cwd(cls):
@@ -449,7 +459,7 @@ class World:
         self.main_mod = prog.mod("__main__.py")
         self.ev = XEvaluator(prog, interpreted_classes=[c for c in self.all_interpreted()], main_mod=self.main_mod)
         self.argparse = ArgparseWorld(self.ev, self.cli)
-        self.P = make_path_class(self.vfs)
+        self.P = make_path_class(self.vfs, self._open)
         self._n_diag = 0
         self._install()
 
@@ -539,7 +549,7 @@ class World:
         fnmatch_mod = Module("fnmatch", {"fnmatch": fnmatch.fnmatchcase, "fnmatchcase": fnmatch.fnmatchcase, "filter": fnmatch.filter, "translate": fnmatch.translate})
         re_mod = Module("re", {n: getattr(re, n) for n in ("compile", "match", "search", "fullmatch", "sub", "split", "findall", "escape", "I", "IGNORECASE", "M", "S", "X")})
         shlex_mod = Module("shlex", {"quote": __import__("shlex").quote, "split": __import__("shlex").split, "join": __import__("shlex").join})
-        typing_mod = Module("typing", {})
+        typing_mod = Module("typing", {"cast": lambda t, v: v, "TYPE_CHECKING": False})
         contextlib_mod = Module("contextlib", {})
         ev.world_modules.update({
             "os": os_mod, "os.path": ospath, "sys": sys_mod, "glob": glob_mod, "pathlib": pathlib_mod, "subprocess": subprocess_mod,
@@ -723,7 +733,15 @@ class World:
             return [Obj("Token", type="STUB", _opaque=True)]
 
         lx.__dict__["_native_iter"] = tokens
-        lx.__dict__["_native"] = {"get_tokens": tokens}
+        # one-at-a-time use of the lexer: tokens, then None
+        state = {"left": None}
+
+        def get_next_token():
+            if state["left"] is None:
+                state["left"] = tokens()
+            return state["left"].pop(0) if state["left"] else None
+
+        lx.__dict__["_native"] = {"get_tokens": tokens, "get_next_token": get_next_token}
         return lx
 
     def _context(self, ev, args, kwargs):
